@@ -4,9 +4,9 @@
    position coded so that a misplaced block is visible. *)
 EXTENDS PPG, Json
 CONSTANTS MaxOps
-VARIABLES mem, cmds, last, nops
-vars == <<mem, cmds, last, nops>>
-Init == mem = <<>> /\ cmds = <<>> /\ last = [op |-> "init"] /\ nops = 0
+VARIABLES mem, cmds, last, nops, cfg
+vars == <<mem, cmds, last, nops, cfg>>
+Init == mem = <<>> /\ cmds = <<>> /\ last = [op |-> "init"] /\ nops = 0 /\ cfg = <<>>
 \* request classes around each limit: far below, just below, min, inside, max, just above, far above
 ReqVals(q) == IF q = "order" THEN {-3, 0, 7, 8, 10, 15, 16, 19, 23, 27, 31, 40, 1000}
               ELSE LET lo == Lim[q][1]  hi == Lim[q][2] IN {lo - 1000, lo - 1, lo, lo + 1, hi, hi + 1, hi * 10 + 5}
@@ -15,11 +15,11 @@ Quantities == {"freq", "amp", "offs", "skew", "plen", "order"}
 \* setters do not interact with the pattern memory: they are explored from the initial state only
 Setter(q, req, scalar, sel) ==
   /\ last.op = "init"
-  /\ cmds' = SetCmds(q, req, scalar, sel) /\ mem' = mem /\ nops' = nops
+  /\ cmds' = SetCmds(q, req, scalar, sel) /\ mem' = mem /\ nops' = nops /\ cfg' = ApplySettings(cfg, SetCmds(q, req, scalar, sel))
   /\ last' = [op |-> "set", q |-> q, req |-> req, scalar |-> scalar, sel |-> sel, warn |-> SetWarn(q, req, scalar, sel)]
 SetFlag(verb, val, sel) ==
   /\ last.op = "init"
-  /\ cmds' = FlagCmds(verb, val, sel) /\ mem' = mem /\ nops' = nops
+  /\ cmds' = FlagCmds(verb, val, sel) /\ mem' = mem /\ nops' = nops /\ cfg' = ApplySettings(cfg, FlagCmds(verb, val, sel))
   /\ last' = [op |-> "flag", verb |-> verb, val |-> val, sel |-> sel, warn |-> ChWarn(sel)]
 Pattern(n, phase) == [i \in 1..n |-> IF ((i + phase) % 3 = 0) \/ ((i + phase) % 7 = 1) THEN 1 ELSE 0]
 DataLens == {1, Chunk - 1, Chunk, Chunk + 1, 2 * Chunk, 2 * Chunk + 1, MaxMem, MaxMem + 2}
@@ -27,25 +27,37 @@ Addrs == {1, 2, Chunk, Chunk + 1, MaxMem - 1, MaxMem}
 SetData(n, phase, addr, sel) ==
   LET c == DataCmds(Pattern(n, phase), addr, sel) IN
   /\ nops < MaxOps /\ nops' = nops + 1 /\ last.op \in {"init", "set_data", "get_data"}
-  /\ cmds' = c /\ mem' = Store(mem, c)
+  /\ cmds' = c /\ mem' = Store(mem, c) /\ cfg' = cfg
   /\ last' = [op |-> "set_data", bits |-> Pattern(n, phase), addr |-> addr, sel |-> sel,
               warn |-> (ChWarn(sel) \/ n > MaxMem - addr + 1)]
 GetData(size, addr, sel) ==
   LET chs == Channels(sel) IN
   /\ nops < MaxOps /\ nops' = nops + 1 /\ size <= MaxMem - addr + 1 /\ last.op \in {"init", "set_data", "get_data"}
-  /\ cmds' = <<>> /\ mem' = mem
+  /\ cmds' = <<>> /\ mem' = mem /\ cfg' = cfg
   /\ last' = [op |-> "get_data", size |-> size, addr |-> addr, sel |-> sel, warn |-> ChWarn(sel),
               data |-> [i \in 1..Len(chs) |-> Read(mem, chs[i], addr, size)]]
+\* read a quantity back after one setter / flag / composite call (or from the power-on defaults)
+GetQs == {"freq", "amp", "offs", "skew", "plen", "order", "PATT:TYPE", "PATT:BSH"}          \* (the driver has no output-state query)
+\* (the quantity read is the one just written - or a few fixed ones after the composite call - to keep the instance small)
+Related(q) == \/ last.op = "init"
+              \/ (last.op = "set" /\ q = last.q)
+              \/ (last.op = "flag" /\ q = last.verb)
+              \/ (last.op = "config" /\ q \in {"amp", "order", "PATT:TYPE", "freq"})
+Get(q, sel) ==
+  /\ last.op \in {"init", "set", "flag", "config"} /\ Related(q)
+  /\ cmds' = GetQueries(q, sel) /\ mem' = mem /\ nops' = nops /\ cfg' = cfg
+  /\ last' = [op |-> "get", q |-> q, sel |-> sel, vals |-> GetVals(cfg, q, sel), prev |-> last, warn |-> (q # "freq" /\ ChWarn(sel))]
 OptOf(S) == {<<>>} \cup {<<v>> : v \in S}
 Configs == [freq : OptOf({100, 500}), plen : OptOf({8}), amp : OptOf({25}), offs : OptOf({-35}), bsh : OptOf({3}), skew : OptOf({40}),
             mode : OptOf({0, 1}), order : OptOf({8}), data : OptOf({6})]
 Config(c, sel) ==
   LET dc == IF ConfigSendsData(c) THEN DataCmds(Pattern(c.data[1], 0), 1, sel) ELSE <<>> IN
   /\ last.op = "init"
-  /\ cmds' = ConfigSetCmds(c, sel) \o dc /\ mem' = Store(mem, dc) /\ nops' = nops
+  /\ cmds' = ConfigSetCmds(c, sel) \o dc /\ mem' = Store(mem, dc) /\ nops' = nops /\ cfg' = ApplySettings(cfg, ConfigSetCmds(c, sel))
   /\ last' = [op |-> "config", c |-> c, sel |-> sel, mustwarn |-> ConfigMustWarn(c, sel),
               bits |-> IF ConfigSendsData(c) THEN Pattern(c.data[1], 0) ELSE <<>>]
-Next == \/ \E c \in Configs, sel \in {<<>>, <<2>>, <<0, 5>>} : Config(c, sel)
+Next == \/ \E q \in GetQs, sel \in {<<>>, <<2>>, <<4, 1>>, <<0, 5>>} : Get(q, sel)
+        \/ \E c \in Configs, sel \in {<<>>, <<2>>, <<0, 5>>} : Config(c, sel)
         \/ \E verb \in FlagVerbs, val \in {0, 1}, sel \in Sels : SetFlag(verb, val, sel)
         \/ \E val \in {-3, 0, 17}, sel \in {<<>>, <<3>>, <<7>>} : SetFlag("PATT:BSH", val, sel)
         \/ \E q \in Quantities : \E v \in ReqVals(q), sel \in Sels : Setter(q, <<v>>, TRUE, sel)
@@ -55,7 +67,14 @@ Next == \/ \E c \in Configs, sel \in {<<>>, <<2>>, <<0, 5>>} : Config(c, sel)
         \/ \E n \in DataLens, a \in Addrs, sel \in {<<>>, <<2>>, <<1, 3>>} : GetData(n, a, sel)
 Spec == Init /\ [][Next]_vars
 \* ---- the property on the model
-EveryCmdInRange == \A i \in 1..Len(cmds) : IF cmds[i].verb = "PATT:DATA" THEN BlockOK(cmds[i]) ELSE CmdOK(cmds[i])
+IsQuery(c) == c.verb \notin SettingVerbs \cup {"PATT:DATA"}
+EveryCmdInRange == \A i \in 1..Len(cmds) : IF cmds[i].verb = "PATT:DATA" THEN BlockOK(cmds[i])
+                                            ELSE IF IsQuery(cmds[i]) THEN cmds[i].ch \in 0..NCh ELSE CmdOK(cmds[i])
+\* what is read back is what the driver put into the instrument: always inside the documented limits
+ReadBackInRange == last.op = "get" =>
+   \A i \in 1..Len(last.vals) : \/ (last.q \in DOMAIN Verb /\ InRange(last.q, last.vals[i]))
+                                  \/ (last.q = "PATT:TYPE" /\ last.vals[i] \in {0, 1})
+                                  \/ last.q = "PATT:BSH"
 \* the composite call emits exactly what the individual calls would emit, in the documented order
 ConfigIsComposition == last.op = "config" =>
    cmds = ConfigSetCmds(last.c, last.sel) \o (IF ConfigSendsData(last.c) THEN DataCmds(last.bits, 1, last.sel) ELSE <<>>)
